@@ -38,8 +38,8 @@ CLAIMED["C14"] = ("exploration", "4 C14", "deterministic simulation with storage
 
 RS_NOTE = "Weak fit, stated as such: the fault-injection content is the tail state (stale bits after pop/truncation, garbage and spare words in caller-supplied storage); the rest is seeded generation against a sorted-positions model. Nothing is generated between 2^24 and 2^32 bits; a few sparse vectors just beyond 2^32 bits exercise the upper counters."
 CLAIMED["C01"] = ("exploration", "4 C01/C02", "deterministic simulation: rank structures (Rank9, five RankSmall variants, under selection wrappers up to depth 4) over bit vectors whose tail state is produced by simulated histories and garbage-filled caller storage; prefix-popcount model",
-            "Every structure of a 21-stack catalogue is built over seeded vectors in four tail states and compared with the model at every position (sampled on big vectors) including past the end.", RS_NOTE)
-CLAIMED["C02"] = ("exploration", "4 C01/C02", "deterministic simulation: every selection structure and 35 nestings with drawn parameters over bit vectors in clean, stale and dirty tail states; sorted-positions model for select and select_zero",
+            "Every structure of a 33-entry catalogue (plain, nested, assembled with map(), over Vec-, Box- and slice-backed bit vectors) is built over seeded vectors in four tail states and compared with the model at every position (sampled on big vectors) including past the end.", RS_NOTE)
+CLAIMED["C02"] = ("exploration", "4 C01/C02", "deterministic simulation: every selection structure in a 54-entry catalogue (plain, nested, assembled with map(), over Vec-, Box- and slice-backed bit vectors) with drawn parameters over bit vectors in clean, stale and dirty tail states; sorted-positions model for select and select_zero",
             "All structures are compared with one model, so answers cannot depend on structure or parameters; shapes target span thresholds, word counts mod 4 and inventory quanta.", RS_NOTE)
 
 CLAIMED["C15"] = ("exploration", "4 C15", "deterministic simulation of restart-from-durable-state: every serializable family serialized into a fault-injecting sink (short writes, EINTR, hard error) and reloaded by six paths (simulated short-read source, aligned zero-copy buffer at a slack offset, load_full/load_mem/load_mmap/mmap on a real file); the original instance is the oracle",
